@@ -253,7 +253,7 @@ pub fn gen_signature(r: &mut Rng, o: &ExtOpts) -> Signature {
     } else if o.hostile_identifiers {
         vec![("n", "integer"), ("c", "general"), ("k", "integer"), ("n_i", "integer"), ("sy", "symbol")]
     } else {
-        vec![("n", "integer"), ("c", "general"), ("k", "integer")]
+        vec![("n", "integer"), ("c", "general"), ("k", "integer"), ("sy", "symbol")]
     };
     let mut placeholders: Vec<(String, String)> = Vec::new();
     for _ in 0..r.upto(3) {
@@ -533,6 +533,23 @@ pub fn gen_external(r: &mut Rng, o: &ExtOpts) -> (ExtTexts, Signature) {
             gen_side_program(r, &sig, &rp, &symbols, skip_right)
         }
     };
+    // a rule written twice (meaning preserving; exercises duplicate formulas in the problems)
+    let (left_prog, right) = {
+        let dup = |r: &mut Rng, text: &str| -> String {
+            let lines: Vec<&str> = text.lines().collect();
+            if lines.is_empty() {
+                return text.to_string();
+            }
+            let k = r.upto(lines.len());
+            let mut v: Vec<String> = lines.iter().map(|s| s.to_string()).collect();
+            let at = r.upto(v.len() + 1);
+            v.insert(at, lines[k].to_string());
+            v.join("\n")
+        };
+        let l = if r.chance(1, 10) { dup(r, &left_prog) } else { left_prog };
+        let rr = if r.chance(1, 6) { dup(r, &right) } else { right };
+        (l, rr)
+    };
     let right = if o.skip_many_outputs {
         // a right program over a random subset of the output predicates
         let mut sub = sig.clone();
@@ -604,5 +621,13 @@ pub fn gen_strong_with(r: &mut Rng, so: StrongOpts) -> (String, String) {
         1 | 2 => mutate_program(r, &left),
         _ => gen_program(r, &o),
     };
+    if r.chance(1, 6) {
+        // one side repeats a rule, the other has an additional rule instead (same number of rules)
+        let lines: Vec<&str> = left.lines().collect();
+        let k = r.upto(lines.len());
+        let dup = format!("{left}\n{}", lines[k]);
+        let extra = format!("{left}\n{}", crate::kit::generate::gen_rule(r, &o));
+        return if r.chance(1, 2) { (dup, extra) } else { (extra, dup) };
+    }
     (left, right)
 }
